@@ -105,10 +105,14 @@ PROPERTY = Property(
         "extraction, attribution, LICENSES/ entries and the report; oracles there (parameters of the model, answered by the real "
         "libraries): binaryornot, tomlkit (REUSE.toml as its list of tables), python-debian (.reuse/dep5 as its paragraphs), "
         "license-expression (parses?, keys, rendering); no VCS in that stream",
-        "outside the composed model: special files (FIFOs), symlinks below LICENSES/, a live symlink as FILE.license, a dep5 licence "
-        "synopsis that does not parse (streams trees / cells have them: symbolic links below LICENSES/ to files and to directories, inside "
-        "and outside the project, dangling ones; oracle there: a link that resolves to a regular file is a licence text named by the link's "
-        "name, texts below a linked directory count like texts in any sub-directory, a dangling link is nothing)",
+        "outside the composed model: special files (FIFOs), a live symlink as FILE.license, link loops, a dep5 licence synopsis that does "
+        "not parse (FIFOs and such synopses are in the streams trees / cells)",
+        "symbolic links below LICENSES/ (to files and to directories, inside and outside the project, links to links, links inside linked "
+        "directories, dangling and hidden ones; LICENSES itself a link) are in all three streams; reading, for the oracles: a link that "
+        "resolves to a regular file is a licence text named by the link's name, texts below a linked directory count like texts in any "
+        "sub-directory, a dangling link is nothing. In stream e2e-model the composed model receives every link with what it resolves to "
+        "(ENode.symlink / LinkTarget; the harness follows links to links on the case, LinkView) and walks them itself (licWalkLink; "
+        "theorem C01_e2e_linked_text); its oracle adds the generator's record of linked names to the regular files it finds below LICENSES/",
         "read errors are provoked with a FIFO (the sandbox runs as root, so permissions cannot be used)",
         "per-file failures that are not I/O errors are provoked with a dep5 License field that is no SPDX expression and with licence tags "
         "on which the expression parser fails internally",
